@@ -163,6 +163,54 @@ def grayAlphaToRgba8 (g a : Int) : List Int := [g, g, g, a]
 def grayAlphaToRgb8 (g a : Int) : List Int := let v := mul8 g a; [v, v, v]
 def grayToRgba8 (g : Int) : List Int := [g, g, g, 255]
 
+/-! ### depth-changing gray_alpha / gray -> rgba (channel depths 8, 16, 32f; float32 values as bit patterns) -/
+
+inductive Depth where | d8 | d16 | d32f
+  deriving Repr, DecidableEq
+
+def Depth.maxV : Depth → Int | .d8 => 255 | .d16 => 65535 | .d32f => 1065353216
+
+/-- channel_convert between uint8_t, uint16_t, float32_t (C06) -/
+def chConv (a b : Depth) (v : Int) : Int :=
+  match a, b with
+  | .d8, .d8 => v | .d16, .d16 => v | .d32f, .d32f => v
+  | .d8, .d16 => up_div_B8_B16 v 255 65535
+  | .d16, .d8 => down_div_B16_B8 v 65535 255
+  | .d8, .d32f => bitsOf (f32OfInt v / f32OfInt 255)
+  | .d16, .d32f => bitsOf (f32OfInt v / f32OfInt 65535)
+  | .d32f, .d8 => Int.ofNat ((f32 v * f32OfInt 255 + 0.5).toUInt32.toNat % 256)
+  | .d32f, .d16 => Int.ofNat ((f32 v * f32OfInt 65535 + 0.5).toUInt32.toNat % 65536)
+
+/-- channel_multiply in the source depth (C07) -/
+def chMul (d : Depth) (a b : Int) : Int :=
+  match d with
+  | .d8 => mul8 a b
+  | .d16 => mul_u16 a b
+  | .d32f => bitsOf (f32 a * f32 b)
+
+/-- default_color_converter_impl<gray_alpha_t, rgba_t>: gray and alpha each through channel_convert to the DESTINATION channel type -/
+def grayAlphaToRgba (s t : Depth) (g a : Int) : List Int := [chConv s t g, chConv s t g, chConv s t g, chConv s t a]
+/-- gray_alpha -> rgb and -> gray: premultiplied in the source depth, then converted -/
+def grayAlphaToRgb (s t : Depth) (g a : Int) : List Int := let v := chConv s t (chMul s g a); [v, v, v]
+/-- toolbox gray -> rgba: alpha = max of the destination -/
+def grayToRgba (s t : Depth) (g : Int) : List Int := [chConv s t g, chConv s t g, chConv s t g, t.maxV]
+
+/-- position of a channel value in [0,1] -/
+def unitD (d : Depth) (v : Int) : Float :=
+  match d with
+  | .d32f => (f32 v).toFloat
+  | _ => Float.ofInt v / Float.ofInt d.maxV
+/-- one unit of the depth as a fraction of the range (float32: 2^-22) -/
+def stepD (d : Depth) : Float := match d with | .d8 => 1.0 / 255.0 | .d16 => 1.0 / 65535.0 | .d32f => 2.384185791015625e-7
+def inRangeD (d : Depth) (v : Int) : Bool :=
+  match d with
+  | .d32f => (f32 v).toFloat ≥ 0 && (f32 v).toFloat ≤ 1
+  | _ => decide (0 ≤ v ∧ v ≤ d.maxV)
+/-- `out` is an acceptable channel_convert of `v` (the clauses of C06): in range, min to min, max to max, within one destination unit -/
+def convOk (s t : Depth) (v out : Int) : Bool :=
+  inRangeD t out && (v != 0 || out == 0) && (v != s.maxV || out == t.maxV)
+  && Float.abs (unitD t out - unitD s v) ≤ stepD t + 1.0e-9
+
 /-! ### luminance on double channels (toolbox rgb_to_luminance) -/
 def lumDouble (r g b : Int) : Float :=
   let fr := Float.ofInt r / 255.0; let fg := Float.ofInt g / 255.0; let fb := Float.ofInt b / 255.0
